@@ -1,7 +1,7 @@
 import MesonModel.Life.Model
 import MesonModel.Options.MergeLemmas
 /-
-Helper lemmas for C08: early failures never touch the persisted state, late failures roll coredata back,
+Helper lemmas for C08: a failing setup / reconfigure / configure never changes the persisted state,
 `--wipe` only reads cmd_line.txt and the option files, and the effect of one `update_project_options` entry.
 -/
 namespace MesonModel.Life
@@ -9,8 +9,8 @@ open MesonModel.Options MesonModel.Options.M
 
 /-! ## failures -/
 
-theorem commitFirst_early (d : Dir) (so user : Dict) (r : Except Err Interp) (e : Err)
-    (h : (commitFirst d so user r).2 = .failed e false) : (commitFirst d so user r).1 = d := by
+theorem commitFirst_failed (d : Dir) (so user : Dict) (r : Except Err Interp) (e : Err) (l : Bool)
+    (h : (commitFirst d so user r).2 = .failed e l) : (commitFirst d so user r).1 = d := by
   cases r with
   | error e' => rfl
   | ok r =>
@@ -19,28 +19,8 @@ theorem commitFirst_early (d : Dir) (so user : Dict) (r : Except Err Interp) (e 
     · simp_all
     · split at h <;> simp_all
 
-theorem commitFirst_core (d : Dir) (so user : Dict) (r : Except Err Interp) (e : Err) (l : Bool)
-    (h : (commitFirst d so user r).2 = .failed e l) : (commitFirst d so user r).1.core = d.core := by
-  cases r with
-  | error e' => rfl
-  | ok r =>
-    simp only [commitFirst] at *
-    split at h
-    · simp_all
-    · split at h <;> simp_all
-
-theorem commitReconf_early (d : Dir) (nd user : Dict) (r : Except Err Interp) (e : Err)
-    (h : (commitReconf d nd user r).2 = .failed e false) : (commitReconf d nd user r).1 = d := by
-  cases r with
-  | error e' => rfl
-  | ok r =>
-    simp only [commitReconf] at *
-    split at h
-    · simp_all
-    · split at h <;> simp_all
-
-theorem commitReconf_core (d : Dir) (nd user : Dict) (r : Except Err Interp) (e : Err) (l : Bool)
-    (h : (commitReconf d nd user r).2 = .failed e l) : (commitReconf d nd user r).1.core = d.core := by
+theorem commitReconf_failed (d : Dir) (nd user : Dict) (r : Except Err Interp) (e : Err) (l : Bool)
+    (h : (commitReconf d nd user r).2 = .failed e l) : (commitReconf d nd user r).1 = d := by
   cases r with
   | error e' => rfl
   | ok r =>
@@ -59,27 +39,16 @@ theorem commitConf_failed (d : Dir) (c : Core) (args : List (Key × Option Val))
     simp only [commitConf] at *
     split at h <;> simp_all
 
-theorem firstInvocation_early (d : Dir) (so : Dict) (e : Err)
-    (h : (firstInvocation d so).2 = .failed e false) : (firstInvocation d so).1 = d :=
-  commitFirst_early _ _ _ _ _ h
+theorem firstInvocation_failed (d : Dir) (so : Dict) (e : Err) (l : Bool)
+    (h : (firstInvocation d so).2 = .failed e l) : (firstInvocation d so).1 = d :=
+  commitFirst_failed _ _ _ _ _ _ h
 
-theorem firstInvocation_core_of_failed (d : Dir) (so : Dict) (e : Err) (l : Bool)
-    (h : (firstInvocation d so).2 = .failed e l) : (firstInvocation d so).1.core = d.core :=
-  commitFirst_core _ _ _ _ _ _ h
-
-theorem reconfigure_early (d : Dir) (c : Core) (nd : Dict) (e : Err)
-    (h : (reconfigure d c nd).2 = .failed e false) : (reconfigure d c nd).1 = d := by
+theorem reconfigure_failed (d : Dir) (c : Core) (nd : Dict) (e : Err) (l : Bool)
+    (h : (reconfigure d c nd).2 = .failed e l) : (reconfigure d c nd).1 = d := by
   unfold reconfigure at *
   split at h
   · rfl
-  · exact commitReconf_early _ _ _ _ _ h
-
-theorem reconfigure_core_of_failed (d : Dir) (c : Core) (nd : Dict) (e : Err) (l : Bool)
-    (h : (reconfigure d c nd).2 = .failed e l) : (reconfigure d c nd).1.core = d.core := by
-  unfold reconfigure at *
-  split at h
-  · rfl
-  · exact commitReconf_core _ _ _ _ _ _ h
+  · exact commitReconf_failed _ _ _ _ _ _ h
 
 theorem configure_failed (d : Dir) (args : List (Key × Option Val)) (e : Err) (l : Bool)
     (h : (configure d args).2 = .failed e l) : (configure d args).1 = d := by
